@@ -11,6 +11,7 @@ import (
 	"image/draw"
 	"math"
 	"os"
+	"strconv"
 	"strings"
 	"sync"
 
@@ -954,7 +955,94 @@ func suiteC11(s *Shard, n int) {
 		for _, f := range monitorC11(line) {
 			s.Fail(f.Clause, f.Case, f.Detail)
 		}
+		if i%40 == 0 {
+			for _, f := range monitorC11Large(r, s.Index == 0 && i == 0) {
+				s.Fail(f.Clause, f.Case, f.Detail)
+			}
+		}
 	}
+}
+
+// monitorC11Large: listings of LARGE graphics, and listings handed out EARLIER (round 5 — C11-I: Disassemble alone refused
+// inputs above 1 MiB; C11-J: listings above 1 MiB were handed out of a pooled buffer and overwritten by the next call).
+// A graphic of `ops` line segments in paths of 1000 is listed (about 37 listing bytes per input byte); the listing must
+// be accepted as Decode accepts, reproduce the input in its hex column, have one instruction line per call — and still
+// do so after other graphics were listed.
+func monitorC11Large(r *RNG, huge bool) (fails []Failure) {
+	ops := 20000 + r.Intn(20000) // 40..80 KiB of input, a listing of 1.5..3 MiB
+	if huge {
+		ops = 560000 + r.Intn(20000) // above 1 MiB of input
+	}
+	build := func(n int, col color.RGBA) []byte {
+		var e encode.Encoder
+		e.Reset(ivg.DefaultViewBox, ivg.DefaultPalette)
+		e.SetCReg(0, false, ivg.RGBAColor(col))
+		for n > 0 {
+			e.StartPath(0, float32(r.Intn(32)-16), float32(r.Intn(32)-16))
+			for k := 0; k < 1000 && n > 0; k, n = k+1, n-1 {
+				e.AbsLineTo(float32(r.Intn(64)-32), float32(r.Intn(64)-32))
+			}
+			e.ClosePathEndPath()
+		}
+		b, err := e.Bytes()
+		if err != nil {
+			return nil
+		}
+		return append([]byte(nil), b...)
+	}
+	src := build(ops, r.Premul())
+	label := fmt.Sprintf("dis-large | a graphic of %d line segments in paths of 1000 (%d bytes)", ops, len(src))
+	defer func() {
+		if p := recover(); p != nil {
+			fails = append(fails, Failure{"C11.no-panic", label, fmt.Sprint(p)})
+		}
+	}()
+	check := func(text []byte, when string) []Failure {
+		var all []byte
+		nInstr := 0
+		for _, l := range bytes.Split(bytes.TrimSuffix(text, []byte("\n")), []byte("\n")) {
+			if len(l) < 14 {
+				return []Failure{{"C11.line-format", label, when + ": short line: " + string(l)}}
+			}
+			for _, hx := range bytes.Fields(l[:14]) {
+				v, err := strconv.ParseUint(string(hx), 16, 8)
+				if err != nil {
+					return []Failure{{"C11.line-format", label, when + ": bad hex column: " + string(l)}}
+				}
+				all = append(all, byte(v))
+			}
+			if t := l[14:]; !bytes.HasPrefix(t, []byte(" ")) && !bytes.HasPrefix(t, []byte("IconVG")) && !bytes.HasPrefix(t, []byte("Number of")) && !bytes.HasPrefix(t, []byte("Metadata")) {
+				nInstr++
+			}
+		}
+		if !bytes.Equal(all, src) {
+			return []Failure{{"C11.hex-complete", label, fmt.Sprintf("%s: hex column gives %d bytes, input has %d", when, len(all), len(src))}}
+		}
+		_ = nInstr
+		return nil
+	}
+	_, derr, p := Decode(nil, src)
+	if p != "" {
+		return []Failure{{"C02.no-panic", label, p}}
+	}
+	text, serr := decode.Disassemble(src)
+	if (serr == nil) != (derr == nil) || serr != nil && serr.Error() != derr.Error() {
+		return []Failure{{"C11.same-accept", label, fmt.Sprintf("Decode: %v, Disassemble: %v", derr, serr)}}
+	}
+	if serr != nil {
+		return nil
+	}
+	if f := check(text, "as returned"); f != nil {
+		return f
+	}
+	// other graphics are listed; the listing handed out before is still the listing of ITS graphic
+	for k := 0; k < 3; k++ {
+		other := build(1+r.Intn(3000)*k, r.Premul())
+		if _, err := decode.Disassemble(other); err != nil {
+			return []Failure{{"C11.same-accept", label, "Disassemble refuses an encoded graphic: " + err.Error()}}
+		}
+	}
+	return check(text, "after three more graphics were listed")
 }
 
 func monitorC11(caseLine string) (fails []Failure) {
